@@ -69,11 +69,20 @@ func (e *Env) planJudge(prop string, o *scen.Outcome, t *report.Tally, sampled *
 		}
 		seen := map[string]bool{}
 		for _, d := range diffs {
-			if d.Prop != prop || seen[d.Key] {
+			key := d.Key
+			if d.Prop != prop {
+				if prop != "C06" {
+					continue
+				}
+				// a notation cell whose *other* paths deviate: a notation captured a path it does not name
+				// (e.g. :map matched case-insensitively), or leaked into default matching
+				key = "C06|beside-the-notation|" + strings.TrimPrefix(d.Key, "C04|")
+			}
+			if seen[key] {
 				continue
 			}
-			seen[d.Key] = true
-			fs = append(fs, report.Finding{Key: d.Key, What: d.What})
+			seen[key] = true
+			fs = append(fs, report.Finding{Key: key, What: d.What})
 		}
 		for _, l := range gf.Lines {
 			if l.Kind == "assign" {
